@@ -119,7 +119,8 @@ func stripPos(v any) any {
 		}
 		out := map[string]any{}
 		for k, e := range x {
-			if k == "StartPos" || k == "EndPos" {
+			if k == "StartPos" || k == "EndPos" || k == "DocString" {
+				// DocString is derived from the comments next to a declaration; comments are compared separately
 				continue
 			}
 			s := stripPos(e)
@@ -800,6 +801,7 @@ func main() {
 	kinds := map[string]int{}
 	report := func(src string, o Opt, cls string, out []byte, issues []Issue, origin string) {
 		for _, is := range issues {
+			sum.Count("issue " + origin + " " + is.Key + fmt.Sprintf(" [skip_verify=%v]", o.SkipVerify))
 			sum.Fail(is.Key, is.What, map[string]any{"source": src, "options": o, "formatted": string(out), "origin": origin, "seed": *flagSeed})
 		}
 	}
